@@ -83,6 +83,9 @@ func drawArgs(t *kit.Tape, ep *endpoint) *apiArgs {
 	a.bounds.MaxLon = math.Round((a.bounds.MinLon+float64(1+t.Draw(ext))/unit)*unit) / unit
 	a.bounds.MaxLat = math.Round((a.bounds.MinLat+float64(1+t.Draw(ext))/unit)*unit) / unit
 	a.q = queryPool[t.Draw(len(queryPool))]
+	for i, n := 0, t.Draw(3); i < n; i++ {
+		a.q += " " + queryPool[t.Draw(len(queryPool))]
+	}
 	if ep.feat {
 		for i, n := 0, t.Draw(3); i < n; i++ {
 			tm := time.Unix(1100000000+t.Int64(600000000), 0)
@@ -509,6 +512,9 @@ var countVariants = []struct {
 	others bool
 }{{"zero", 0, false}, {"one", 1, false}, {"many", -1, false}, {"zero+other-kinds", 0, true}, {"one+other-kinds", 1, true}, {"many+other-kinds", -1, true}}
 
+// argSets argument draws per endpoint and tape; a cell uses one of them, chosen by its coordinates.
+const argSets = 4
+
 const customAPIBase = "https://api.sim.test:8443/osm/api/0.6"
 
 type c20cell struct {
@@ -652,10 +658,10 @@ type cellRun struct {
 }
 
 // execCell performs the call of one table cell. For limiter modes it must run inside a bubble.
-func execCell(root context.Context, idx int, args []*apiArgs) *cellRun {
+func execCell(root context.Context, idx int, args [][]*apiArgs) *cellRun {
 	c := cellOf(idx)
 	ep := endpoints[c.ep]
-	a := args[c.ep]
+	a := args[c.ep][(c.st*5+c.cv*3+c.lim+c.base+c.form)%argSets]
 	cr := &cellRun{cell: c, idx: idx, ep: ep, a: a}
 	clock := new(int)
 	st := apiStatuses[c.st]
@@ -823,7 +829,7 @@ func judgeCell(o *kit.Outcome, cr *cellRun) (violated bool) {
 			viol("C20/limiter-without-caller-context/"+ep.name, "Wait did not receive the caller's context")
 		}
 		if c.lim == limCancel && cr.lim.end-cr.lim.start != int64(cr.d) {
-			viol("C20/harness/cancel-instant", "Wait returned %v after it started, the context was cancelled after %v", time.Duration(cr.lim.end-cr.lim.start), cr.d)
+			viol("C20/limiter-wait-not-ended-by-cancel/"+ep.name, "Wait returned %v after it started although the caller's context was cancelled after %v", time.Duration(cr.lim.end-cr.lim.start), cr.d)
 		}
 		return
 	}
@@ -983,11 +989,14 @@ func firstN(s []string, n int) []string {
 func runC20(t *testing.T, r *kit.Run) {
 	o := r.Out
 	o.Faults = map[string]int{}
-	args := make([]*apiArgs, len(endpoints))
+	args := make([][]*apiArgs, len(endpoints))
 	wl := uint64(0x20)
 	for i, ep := range endpoints {
-		args[i] = drawArgs(r.Tape, ep)
-		wl = kit.Mix(wl ^ kit.HashStr(uint64(i), fmt.Sprint(args[i].describe(ep), args[i].salt, args[i].many)))
+		for k := 0; k < argSets; k++ {
+			a := drawArgs(r.Tape, ep)
+			args[i] = append(args[i], a)
+			wl = kit.Mix(wl ^ kit.HashStr(uint64(i), fmt.Sprint(a.describe(ep), a.salt, a.many)))
+		}
 	}
 	o.Workload = wl
 	total := numCells()
@@ -1065,7 +1074,7 @@ func runC20(t *testing.T, r *kit.Run) {
 		o.Scenario = bad
 	} else if len(cells) > 0 {
 		c := cellOf(cells[len(cells)/2])
-		d := args[c.ep].describe(endpoints[c.ep])
+		d := args[c.ep][0].describe(endpoints[c.ep])
 		d["cells_in_table"], d["cells_in_this_run"] = total, len(cells)
 		o.Scenario = d
 	}
